@@ -193,7 +193,15 @@ func (s *shadow) preState() {
 
 func (s *shadow) genOp() (*structs.TxnOp, string) {
 	node := hx.Pick(s.r, shNodes)
-	switch s.r.Intn(12) {
+	switch s.r.Intn(14) {
+	case 12, 13:
+		// legacy intention operations (pre-1.9 Raft logs): connect-intentions table; two of the ops are refused
+		id := hx.Pick(s.r, []string{"99999999-0000-0000-0000-000000000001", "99999999-0000-0000-0000-000000000002"})
+		ixn := &structs.Intention{ID: id, SourceNS: "default", SourceName: hx.Pick(s.r, []string{"web", "api"}), DestinationNS: "default",
+			DestinationName: hx.Pick(s.r, []string{"db", "web"}), Action: structs.IntentionActionAllow, SourceType: structs.IntentionSourceConsul}
+		op := hx.Pick(s.r, []structs.IntentionOp{structs.IntentionOpCreate, structs.IntentionOpCreate, structs.IntentionOpUpdate,
+			structs.IntentionOpDelete, structs.IntentionOpDeleteAll, structs.IntentionOpUpsert})
+		return &structs.TxnOp{Intention: &structs.TxnIntentionOp{Op: op, Intention: ixn}}, "legacy-intention-" + string(op)
 	case 0, 1, 2:
 		id := hx.Pick(s.r, []string{"web-sidecar-proxy", "web-sidecar-proxy", "api-sidecar-proxy", "web", "db", "tgw", "igw", "nat"})
 		verb := api.ServiceDelete
@@ -278,6 +286,26 @@ func (s *shadow) txn(ops structs.TxnOps, label string) {
 	}
 }
 
+// freshOps: what a new request with the same content looks like. memdb stores the very object an insert
+// was given, so after a commit the request's intention IS the stored row; every real request is decoded
+// into fresh objects, and so must the next use of these operations be.
+func freshOps(ops structs.TxnOps) structs.TxnOps {
+	out := make(structs.TxnOps, len(ops))
+	for i, op := range ops {
+		cp := *op
+		if op.Intention != nil {
+			ix := *op.Intention
+			if ix.Intention != nil {
+				obj := *ix.Intention
+				ix.Intention = &obj
+			}
+			cp.Intention = &ix
+		}
+		out[i] = &cp
+	}
+	return out
+}
+
 func tableText(d *fullDump, table string) string {
 	var b strings.Builder
 	for _, r := range d.rows {
@@ -325,10 +353,72 @@ func shadowCase(run *hx.Run, n int) {
 		s.txn(ops, label)
 		// read-only transaction: never changes anything
 		before := takeFull(s.st())
-		s.st().TxnRO(ops)
+		s.st().TxnRO(freshOps(ops))
 		if d := firstDiff(before, takeFull(s.st())); d != "" {
 			run.Violate("txn:read-only-transaction-changed-table:"+tableOfDiff(d), d, append([]string(nil), s.trace...))
 		}
 	}
+	if n%4 == 0 {
+		s.panicking()
+	}
 	run.Case(fmt.Sprintf("shadow-%d-%s", n, strings.Join(s.trace, "|")), true)
+}
+
+// panicking: an operation with a verb the dispatcher does not know (a newer server's log entry) makes
+// TxnRW panic in the middle of the write transaction, after earlier operations have written. Whatever the
+// caller does with the panic, the store must be as it was (deferred Abort), nothing published, and the
+// store must still accept writes (the writer lock was released).
+func (s *shadow) panicking() {
+	st := s.st()
+	var bogus *structs.TxnOp
+	kind := ""
+	switch s.r.Intn(5) {
+	case 0:
+		bogus, kind = &structs.TxnOp{KV: &structs.TxnKVOp{Verb: "bogus", DirEnt: structs.DirEntry{Key: "k"}}}, "kv"
+	case 1:
+		bogus, kind = &structs.TxnOp{Node: &structs.TxnNodeOp{Verb: "bogus", Node: structs.Node{Node: "n1"}}}, "node"
+	case 2:
+		bogus, kind = &structs.TxnOp{Service: &structs.TxnServiceOp{Verb: "bogus", Node: "n1", Service: structs.NodeService{ID: "web"}}}, "service"
+	case 3:
+		bogus, kind = &structs.TxnOp{Check: &structs.TxnCheckOp{Verb: "bogus", Check: structs.HealthCheck{Node: "n1", CheckID: "serfHealth"}}}, "check"
+	default:
+		bogus, kind = &structs.TxnOp{Session: &structs.TxnSessionOp{Verb: "bogus", Session: structs.Session{ID: storex.Sessions[0]}}}, "session"
+	}
+	var ops structs.TxnOps
+	for k := 1 + s.r.Intn(3); k > 0; k-- {
+		op, _ := s.genOp()
+		ops = append(ops, op)
+	}
+	ops = append(ops, bogus)
+	before := takeFull(st)
+	calls := s.pub.Calls
+	ws := s.w.C05WatchSet(nil)
+	idx := s.next()
+	panicked := false
+	func() {
+		defer func() {
+			if r := recover(); r != nil {
+				panicked = true
+			}
+		}()
+		st.TxnRW(idx, ops)
+	}()
+	s.note("txn@%d with an unknown %s verb at the end -> panicked=%v", idx, kind, panicked)
+	s.run.Tag(fmt.Sprintf("shadow:unknown-%s-verb:panicked=%v", kind, panicked))
+	rp := append([]string(nil), s.trace...)
+	if !panicked {
+		s.run.Violate("txn:unknown-verb-did-not-panic:"+kind, "an operation with an unknown verb was swallowed by the dispatcher", rp)
+	}
+	if d := firstDiff(before, takeFull(st)); d != "" {
+		s.run.Violate("txn:panicking-transaction-changed-table:"+tableOfDiff(d), "a transaction that panicked changed the store: "+d, rp)
+	}
+	if s.pub.Calls != calls || storex.Fired(ws) {
+		s.run.Violate("txn:panicking-transaction-side-effect", "a transaction that panicked published or woke a watcher", rp)
+	}
+	// the store is still writable
+	done := make(chan error, 1)
+	go func() { done <- st.KVSSet(s.next(), &structs.DirEntry{Key: "after-panic", Value: []byte("x")}) }()
+	if err := <-done; err != nil {
+		s.run.Violate("txn:store-unusable-after-panic", err.Error(), rp)
+	}
 }
